@@ -209,7 +209,7 @@ async def idle_worker_scenario(case, out, stats, fps):
         await conn.disconnect()
 
 
-async def draining_scenario(case, out, stats, fps):
+async def draining_scenario(case, out, stats, fps, incon):
     """The worker has stopped consuming (message limit reached / stop signal / its only consumer failed) while an actor is still
     executing: run() is still in progress, so the port answers - 200, or 503 when a consumer failed - until run() is over."""
     import signal
@@ -272,7 +272,7 @@ async def draining_scenario(case, out, stats, fps):
         try:
             await asyncio.wait_for(fast_done.wait(), 10)
         except asyncio.TimeoutError:
-            out.append(V("harness_or_api_error", f"draining/{variant}", "the two jobs never ran"))
+            incon.append(f"draining/{variant}: the two jobs had not run after 10 s (loaded machine?)")
             run_task.cancel()
             continue
         if variant == "signal":
@@ -281,6 +281,13 @@ async def draining_scenario(case, out, stats, fps):
             os.kill(os.getpid(), signal.SIGUSR2)
         elif variant == "consumer_failed":
             fail.set()
+            # (probing starts once the worker has registered the failure; how long that takes is the machine's business)
+            for _ in range(1000):
+                if worker.health_check_server.health_status.value == 503 or run_task.done():
+                    break
+                await asyncio.sleep(0.005)
+            else:
+                out.append(V("wrong_status", "draining/flip-not-registered", "the worker's only consumer raised while an actor was executing, but the health status had not become UNHEALTHY 5 s later"))
         want = 503 if variant == "consumer_failed" else 200
         # consuming winds down within a few loop turns; the slow actor keeps run() in progress for as long as the gate is shut
         seen = collections.Counter()
@@ -302,9 +309,9 @@ async def draining_scenario(case, out, stats, fps):
             out.append(V(rule, f"draining/{variant}", f"consuming has ended ({variant}) while an actor is still executing inside Worker.run(): 12 probes answered {dict(seen)}, expected {want} every time"))
         gate.set()
         try:
-            await asyncio.wait_for(run_task, 10)
+            await asyncio.wait_for(run_task, 30)
         except asyncio.TimeoutError:
-            out.append(V("port_lifetime", f"draining/{variant}", "run() did not return within 10 s after the last actor finished"))
+            out.append(V("port_lifetime", f"draining/{variant}", "run() did not return within 30 s after the last actor finished"))
             run_task.cancel()
         except Exception:  # noqa: BLE001
             pass
@@ -615,7 +622,7 @@ def run_case(case):
         if case.get("type") == "idle_worker":
             asyncio.run(idle_worker_scenario(case, out, stats, fps))
         elif case.get("type") == "draining":
-            asyncio.run(draining_scenario(case, out, stats, fps))
+            asyncio.run(draining_scenario(case, out, stats, fps, incon))
         else:
             asyncio.run(scenario(case, out, stats, fps, samples, incon))
     except Exception as exc:  # noqa: BLE001
